@@ -30,7 +30,8 @@ def gen_case(rng, idx, tier):
         U = gen.integer_kv(rng)
         nt = "int"
     else:
-        U = gen.kv(rng, pmax=5, nintmax=4)
+        deep = tier == "thorough" and rng.random() < 0.3
+        U = gen.kv(rng, pmax=7 if deep else 5, nintmax=6 if deep else 4)
         nt = gen.numtype(rng, U, ("frac", "frac", "float", "npfloat"))
     p, n = ref.wellformed(U)
     W = gen.weights(rng, n) if rng.random() < 0.4 else None
